@@ -19,8 +19,8 @@ PROP = dict(
     jobs=dict(
         quick=[job("lnwallet", "^TestVerifC02", ["TestVerifC02Reload"], 40, shards=8, timeout=600,
                    env=dict(VERIF_STEPS=40))],
-        thorough=[job("lnwallet", "^TestVerifC02", ["TestVerifC02Reload"], 350, shards=16, timeout=2400,
-                      env=dict(VERIF_STEPS=100))],
+        thorough=[job("lnwallet", "^TestVerifC02", ["TestVerifC02Reload"], 160, shards=16, timeout=2400,
+                      env=dict(VERIF_STEPS=80))],
     ),
     also=["C01"],
 )
